@@ -76,10 +76,23 @@ theorem deliver_hist (s : Sys) (hg : Good iss s) (x : SideId) (i : Nat) (s1 : Sy
         · rw [htcb] at ha; cases ha
         · rw [hlis] at ha; cases ha
 
+/-- a run of deliveries and reads (each delivery ends in a state satisfying the invariants) -/
+inductive QuietRun (iss : SideId → Seq) : Sys → Sys → Prop
+  | refl (s : Sys) : QuietRun iss s s
+  | del {s s1 s2 : Sys} {x : SideId} {i : Nat} {r : Res} : QuietRun iss s s1 →
+      s1.step (.deliver x i) = .ok (s2, r) → Good iss s2 → QuietRun iss s s2
+  | rd {s s1 s2 : Sys} {x : SideId} {r : Res} : QuietRun iss s s1 → s1.step (.read x) = .ok (s2, r) → QuietRun iss s s2
+
+theorem QuietRun.trans {a b c : Sys} (h1 : QuietRun iss a b) (h2 : QuietRun iss b c) : QuietRun iss a c := by
+  induction h2 with
+  | refl => exact h1
+  | del _ e g ih => exact .del ih e g
+  | rd _ e ih => exact .rd ih e
+
 /-- what is recorded about one delivery of a range -/
 structure Delivered (iss : SideId → Seq) (x : SideId) (i : Nat) (s0 sEnd : Sys) : Prop where
   ex : ∃ sa sb r, PlainRun s0 sa ∧ Good iss sa ∧ sa.step (.deliver x i) = .ok (sb, r) ∧ Good iss sb ∧ PlainRun sb sEnd ∧
-    sa.history = s0.history ∧ sa.historyLen = s0.historyLen ∧ sa.side x.peer = s0.side x.peer
+    sa.history = s0.history ∧ sa.historyLen = s0.historyLen ∧ sa.side x.peer = s0.side x.peer ∧ QuietRun iss sb sEnd
 
 theorem nth_of_hist {s s1 : Sys} (h1 : s1.history = s.history) (h2 : s1.historyLen = s.historyLen) (i : Nat) :
     s1.nth i = s.nth i := by
@@ -105,32 +118,33 @@ theorem deliverRange_any (n : Nat) : ∀ (s : Sys) (x : SideId) (lo : Nat), Good
     (∀ j, j < n → ∀ σ, s.nth (lo + j) = some σ → σ.hdr.srcPort = x.peer.port ∧ σ.hdr.dstPort = x.port) →
     ∃ s1, deliverRange s x lo n = .ok s1 ∧ PlainRun s s1 ∧ Good iss s1 ∧
       (∀ y, (s1.side y).submitted = (s.side y).submitted) ∧ s1.history = s.history ∧ s1.historyLen = s.historyLen ∧
-      s1.side x.peer = s.side x.peer ∧
+      s1.side x.peer = s.side x.peer ∧ QuietRun iss s s1 ∧
       (∀ j, j < n → Delivered iss x (lo + j) s s1) := by
   induction n with
   | zero =>
     intro s x lo hg _
-    exact ⟨s, rfl, .refl _, hg, fun _ => rfl, rfl, rfl, rfl, fun j hj => absurd hj (Nat.not_lt_zero _)⟩
+    exact ⟨s, rfl, .refl _, hg, fun _ => rfl, rfl, rfl, rfl, .refl _, fun j hj => absurd hj (Nat.not_lt_zero _)⟩
   | succ n ih =>
     intro s x lo hg hn
     have hp : Op.Plain s (.deliver x lo) := fun σ hσ => hn 0 (by omega) σ (by simpa using hσ)
     obtain ⟨s1, r1, e1, p1, g1, sub1⟩ := step_any s hg (.deliver x lo) hp (fun _ _ h => by cases h)
     obtain ⟨hh1, hl1⟩ := deliver_hist s hg x lo s1 r1 e1 g1
     have hpeer1 := deliver_peer s x lo s1 r1 e1 hh1
-    obtain ⟨s2, e2, p2, g2, sub2, hh2, hl2, hpeer2, tr2⟩ := ih s1 x (lo + 1) g1 (fun j hj σ hσ => by
+    obtain ⟨s2, e2, p2, g2, sub2, hh2, hl2, hpeer2, q2', tr2⟩ := ih s1 x (lo + 1) g1 (fun j hj σ hσ => by
       rw [nth_of_hist hh1 hl1] at hσ
       exact hn (j + 1) (by omega) σ (by rw [show lo + (j + 1) = lo + 1 + j by omega]; exact hσ))
+    have q01 : QuietRun iss s s1 := .del (.refl _) e1 g1
     refine ⟨s2, ?_, p1.trans p2, g2, fun y => (sub2 y).trans (sub1 y), hh2.trans hh1, hl2.trans hl1,
-      hpeer2.trans hpeer1, fun j hj => ?_⟩
+      hpeer2.trans hpeer1, q01.trans q2', fun j hj => ?_⟩
     · simp only [deliverRange, e1]
       exact e2
     · cases j with
       | zero =>
-        exact ⟨s, s1, r1, .refl _, hg, by simpa using e1, g1, p2, rfl, rfl, rfl⟩
+        exact ⟨s, s1, r1, .refl _, hg, by simpa using e1, g1, p2, rfl, rfl, rfl, q2'⟩
       | succ j =>
-        obtain ⟨sa, sb, r, q1, ga, ea, gb, q2, ha, hla, hpa⟩ := (tr2 j (by omega)).ex
+        obtain ⟨sa, sb, r, q1, ga, ea, gb, q2, ha, hla, hpa, qq⟩ := (tr2 j (by omega)).ex
         exact ⟨sa, sb, r, p1.trans q1, ga, by rw [show lo + (j + 1) = lo + 1 + j by omega]; exact ea, gb, q2,
-          ha.trans hh1, hla.trans hl1, hpa.trans hpeer1⟩
+          ha.trans hh1, hla.trans hl1, hpa.trans hpeer1, qq⟩
 
 /-! ## `emit`, `tick`, `read` with their traces -/
 
@@ -254,7 +268,7 @@ structure PhaseT (iss : SideId → Seq) (s s' : Sys) : Prop where
     (∀ j, j < outA.length → Delivered iss .B (s.historyLen + j) s2 s3) ∧
     PlainRun s3 s4 ∧ Good iss s4 ∧ s4.history = s3.history ∧ s4.historyLen = s3.historyLen ∧ s4.side .B = s3.side .B ∧
     (∀ j, j < outB.length → Delivered iss .A (s1.historyLen + j) s3 s4) ∧
-    ReadT iss .A s4 s5 ∧ ReadT iss .B s5 s'
+    ReadT iss .A s4 s5 ∧ ReadT iss .B s5 s' ∧ QuietRun iss s3 s' ∧ QuietRun iss s4 s'
 
 theorem phase_any (s : Sys) (hg : Good iss s) :
     ∃ s', phase s = .ok s' ∧ PlainRun s s' ∧ Good iss s' ∧ (∀ y, (s'.side y).submitted = (s.side y).submitted) ∧
@@ -267,19 +281,20 @@ theorem phase_any (s : Sys) (hg : Good iss s) :
     rw [tB.old _ (by rw [tA.len]; omega), tA.new j hj] at hσ
     cases hσ
     exact tA.ports _ (List.getElem_mem hj)
-  obtain ⟨s3, e3, p3, g3, sub3, hh3, hl3, hp3, tr3⟩ := deliverRange_any outA.length s2 .B s.historyLen tB.good hnA
+  obtain ⟨s3, e3, p3, g3, sub3, hh3, hl3, hp3, q23, tr3⟩ := deliverRange_any outA.length s2 .B s.historyLen tB.good hnA
   have hnB : ∀ j, j < outB.length → ∀ σ, s3.nth (s1.historyLen + j) = some σ →
       σ.hdr.srcPort = SideId.A.peer.port ∧ σ.hdr.dstPort = SideId.A.port := by
     intro j hj σ hσ
     rw [nth_of_hist hh3 hl3, tB.new j hj] at hσ
     cases hσ
     exact tB.ports _ (List.getElem_mem hj)
-  obtain ⟨s4, e4, p4, g4, sub4, hh4, hl4, hp4, tr4⟩ := deliverRange_any outB.length s3 .A s1.historyLen g3 hnB
+  obtain ⟨s4, e4, p4, g4, sub4, hh4, hl4, hp4, q34, tr4⟩ := deliverRange_any outB.length s3 .A s1.historyLen g3 hnB
   obtain ⟨s5, r5, e5, t5⟩ := read_any s4 g4 .A
   obtain ⟨s6, r6, e6, t6⟩ := read_any s5 t5.good .B
   refine ⟨s6, ?_, ((((tA.run.trans tB.run).trans p3).trans p4).trans t5.run).trans t6.run, t6.good,
     fun y => by rw [t6.sub, t5.sub, sub4, sub3, tB.sub, tA.sub],
-    ⟨s1, s2, s3, s4, s5, outA, outB, tA, tB, p3, g3, hh3, hl3, hp3, tr3, p4, g4, hh4, hl4, hp4, tr4, t5, t6⟩⟩
+    ⟨s1, s2, s3, s4, s5, outA, outB, tA, tB, p3, g3, hh3, hl3, hp3, tr3, p4, g4, hh4, hl4, hp4, tr4, t5, t6,
+      q34.trans (.rd (.rd (.refl _) e5) e6), .rd (.rd (.refl _) e5) e6⟩⟩
   unfold phase
   rw [e1]
   dsimp only
